@@ -1,8 +1,10 @@
-(* extraction of the C01 executable models (Pattern.v, TokenSeq.v); ExtrOcamlBasic only *)
+(* extraction of the C01 executable models (Pattern.v, TokenSeq.v, C01Len.v + the generated rule table); ExtrOcamlBasic only *)
 Require Extraction.
 Require Import ExtrOcamlBasic.
-Require Import Base Overlap TokenSeq Pattern.
+Require Import Base Overlap TokenSeq Pattern C01Len Tables_rulebodies C01EndToEnd.
 Extraction Language OCaml.
 Extraction "../ocaml/gen/c01_model.ml"
   matches find_all_matches run_on_chunk pattern_lint
-  iter_chunks iter_sentences iter_paragraphs hull long_sentences.
+  iter_chunks iter_sentences iter_paragraphs hull long_sentences
+  min_len max_len rule_len_possible rule_table rule_ok
+  e2e_spans e2e_lint.
